@@ -2,6 +2,7 @@
 From Coq Require Import Bool ZArith List.
 From K Require Import Lib.Types Model.Machine Model.Bus Model.Run Proofs.RunProofs.
 Import ListNotations.
+From K Require Import Proofs.HexProofs.
 Open Scope Z_scope.
 
 (* however the received lines are partitioned into polling batches, the resulting state (memory, port inputs,
@@ -37,9 +38,26 @@ Proof. exact escape_one_line_proof. Qed.
 Example c18_example : escape [97; 92; 10; 98] = [97; 92; 92; 92; 110; 98; 10] /\ unescape [97; 92; 92; 92; 110; 98] = [97; 92; 10; 98].
 Proof. split; reflexivity. Qed.
 
+(* the hexadecimal fields of `u8:<addr>:<value>` and `ioport:<port>:<value>`: the digit loop with its running overflow test
+   accepts exactly the non-empty hexadecimal numerals (either case, optional single '+') not exceeding the field's maximum
+   (H'FFFFFFFF for addresses, H'FF for values and ports) and yields their value; anything else makes the line malformed *)
+Theorem hex_field_value :
+  forall l max, 0 <= max ->
+    parse_hex l max =
+    let body := match l with 43 :: t => t | _ => l end in
+    match body with
+    | [] => None
+    | _ => match digits_of body with
+           | Some ds => if num ds 0 <=? max then Some (num ds 0) else None
+           | None => None
+           end
+    end.
+Proof. exact parse_hex_spec. Qed.
+
 Print Assumptions batching_irrelevant.
 Print Assumptions stop_absorbs.
 Print Assumptions unknown_lines_ignored.
 Print Assumptions commands.
 Print Assumptions unescape_escape.
 Print Assumptions escape_one_line.
+Print Assumptions hex_field_value.
